@@ -229,6 +229,7 @@ type ChanObj struct {
 	et     types.Type
 	cap    int
 	buf    []Value
+	vcs    []VC // hbrace mode: the sender's clock travels with each buffered element
 	closed bool
 	name   string
 }
@@ -236,6 +237,7 @@ type ChanObj struct {
 func (c *ChanObj) clone() *ChanObj {
 	n := *c
 	n.buf = append([]Value(nil), c.buf...)
+	n.vcs = append([]VC(nil), c.vcs...)
 	return &n
 }
 
